@@ -95,19 +95,41 @@ def run(prog: Program, rep, tier="quick"):
         rep.ob("R19.1", PROTO, f.qual, f"length formatted by {norm(x, 50)} is bounded", ok, detail, x.lineno)
     # ---- R19.2
     ws = prog.func(PROTO, "Protocol.write_sideband")
-    chunks = set()
-    for x in ast.walk(ws.node):
-        if isinstance(x, ast.Slice):
-            for b in (x.lower, x.upper):
-                if b is not None:
-                    v = F.try_fold(b)
-                    if isinstance(v, int):
-                        chunks.add(v)
-    rep.ob("R19.2", PROTO, ws.qual, "side-band chunk + channel byte + 4 <= 65520 and one slice constant",
-           len(chunks) == 1 and max(chunks) + 1 + 4 <= MAX_PKT,
-           f"slice constants {sorted(chunks)}: data would be dropped or frames exceed the maximum", ws.node.lineno)
-    loops = [x for x in ast.walk(ws.node) if isinstance(x, ast.While)]
-    rep.ob("R19.2", PROTO, ws.qual, "side-band writer loops until the blob is consumed", bool(loops), "", ws.node.lineno)
+    # local single-assignment constants of the function (max_data = MAX - 1) are folded too
+    wlocal = {s_.targets[0].id: s_.value for s_ in ast.walk(ws.node) if isinstance(s_, ast.Assign) and isinstance(s_.targets[0], ast.Name)}
+    WF = Folder(prog, m, wlocal)
+    wloops = [x for x in ast.walk(ws.node) if isinstance(x, (ast.While, ast.For))]
+    if not wloops:
+        rep.ob("R19.2", PROTO, ws.qual, "side-band writer loops until the blob is consumed", False,
+               "a blob longer than one frame is not split", ws.node.lineno)
+    for lp in wloops[:1]:
+        if isinstance(lp, ast.While):
+            # idiom A: while blob: ... blob[:K] ... blob = blob[K:]
+            heads = [WF.try_fold(x.slice.upper) for x in ast.walk(lp) if isinstance(x, ast.Subscript) and isinstance(x.slice, ast.Slice)
+                     and x.slice.lower is None and x.slice.upper is not None]
+            tails = [WF.try_fold(x.slice.lower) for x in ast.walk(lp) if isinstance(x, ast.Subscript) and isinstance(x.slice, ast.Slice)
+                     and x.slice.upper is None and x.slice.lower is not None]
+            if len(heads) != 1 or len(tails) != 1 or not all(isinstance(v, int) for v in heads + tails):
+                raise AnalysisError(f"write_sideband: re-slicing loop not understood (heads {heads}, tails {tails})")
+            sent, step = heads[0], tails[0]
+        else:
+            # idiom B: for start in range(0, len(blob), STEP): ... blob[start:start + LEN]
+            it = lp.iter
+            if not (isinstance(it, ast.Call) and dotted(it.func) == "range" and len(it.args) == 3 and isinstance(lp.target, ast.Name)):
+                raise AnalysisError("write_sideband: offset loop is not `for start in range(0, len(blob), step)`")
+            step = WF.try_fold(it.args[2])
+            sl = [x.slice for x in ast.walk(lp) if isinstance(x, ast.Subscript) and isinstance(x.slice, ast.Slice) and x.slice.lower is not None
+                  and x.slice.upper is not None and lp.target.id in norm(x.slice.lower)]
+            if len(sl) != 1 or not isinstance(sl[0].upper, ast.BinOp) or not isinstance(sl[0].upper.op, ast.Add):
+                raise AnalysisError("write_sideband: slice of the offset loop not understood")
+            sent = WF.try_fold(sl[0].upper.right) if lp.target.id in norm(sl[0].upper.left) else WF.try_fold(sl[0].upper.left)
+            if not isinstance(step, int) or not isinstance(sent, int):
+                raise AnalysisError(f"write_sideband: step {step} / slice length {sent} not foldable")
+        rep.ob("R19.2", PROTO, ws.qual, "side-band chunk + channel byte + 4 <= 65520", sent + 1 + 4 <= MAX_PKT,
+               f"chunks of {sent} bytes make frames of {sent + 5} bytes", ws.node.lineno)
+        rep.ob("R19.2", PROTO, ws.qual, "the loop advances by exactly what it sent", sent == step,
+               f"each frame carries {sent} bytes but the loop advances by {step}: " +
+               ("bytes between them are never sent" if step > sent else "bytes are sent twice"), ws.node.lineno)
     bw = prog.func(PROTO, "BufferedPktLineWriter.__init__")
     dflt = None
     a = bw.node.args
@@ -116,14 +138,19 @@ def run(prog: Program, rep, tier="quick"):
             dflt = F.try_fold(d)
     rep.ob("R19.2", PROTO, bw.qual, "default buffer <= 65515", isinstance(dflt, int) and 0 < dflt <= 65515,
            f"bufsize default {dflt}", bw.node.lineno)
-    for qual, payload_pat in (("Protocol.read_pkt_line", "size - 4"), ("PktLineParser.parse", "4:size")):
+    for qual, payload_pat in (("Protocol.read_pkt_line", "size - 4"), ("PktLineParser.parse", None)):
         f = prog.func(PROTO, qual)
         g = cfg_of(prog, f)
         lt4 = [i for i, n in g.nodes.items() if n.kind == "test" and isinstance(n.ast, ast.Compare)
                and norm(n.ast).replace(" ", "") in ("size<4",)]
-        use = [i for i, n in g.nodes.items() if any(payload_pat in norm(e) for e in node_exprs(n)) and n.kind in ("stmt", "test")]
+        if payload_pat is not None:
+            use = [i for i, n in g.nodes.items() if any(payload_pat in norm(e) for e in node_exprs(n)) and n.kind in ("stmt", "test")]
+        else:
+            # the frame handed to the callback: handle_pkt(buf[LOW:HIGH]) with HIGH mentioning size
+            use = [i for i, n in g.nodes.items() for c in node_calls(n) if callee_name(c) == "handle_pkt" and c.args
+                   and isinstance(c.args[0], ast.Subscript) and isinstance(c.args[0].slice, ast.Slice) and "size" in norm(c.args[0].slice)]
         if not use:
-            raise AnalysisError(f"{qual}: payload extraction `{payload_pat}` not found")
+            raise AnalysisError(f"{qual}: payload extraction not found")
         # payload extraction unreachable when the false edges of `size < 4` are cut
         r = reach(g, [g.entry], include_srcs=True, edge_ok=lambda a_, b, l: not (a_ in lt4 and l == "false"))
         ok = bool(lt4) and not any(u in r for u in use)
@@ -138,14 +165,56 @@ def run(prog: Program, rep, tier="quick"):
         parse = [i for i, n in g.nodes.items() for c in node_calls(n) if callee_name(c) == "_parse_pkt_line_length"]
         rep.ob("R19.3", PROTO, qual, "length prefix goes through _parse_pkt_line_length", bool(parse) and not must_pass(g, use, parse),
                "", f.node.lineno)
+    # the transport is never asked for zero bytes (an empty pkt-line has no payload): the payload read is guarded by size > 4
+    f = prog.func(PROTO, "Protocol.read_pkt_line")
+    reads = [c for c in ast.walk(f.node) if isinstance(c, ast.Call) and isinstance(c.func, ast.Name) and c.func.id == "read"
+             and c.args and "size - 4" in norm(c.args[0])]
+    if not reads:
+        raise AnalysisError("read_pkt_line: payload read not found")
+    for c in reads:
+        par = f.module.parents.get(c)
+        guarded = isinstance(par, ast.IfExp) and par.body is c and norm(par.test).replace(" ", "") in ("size>4", "size!=4", "size>=5")
+        if not guarded:
+            g2 = cfg_of(prog, f)
+            tests = {i: "true" for i, n in g2.nodes.items() if n.kind == "test" and norm(n.ast).replace(" ", "") in ("size>4", "size!=4", "size>=5")}
+            tests.update({i: "false" for i, n in g2.nodes.items() if n.kind == "test" and norm(n.ast).replace(" ", "") in ("size==4", "size<=4")})
+            r_ = reach(g2, [g2.entry], include_srcs=True, edge_ok=lambda a, b, l: not (a in tests and l == tests[a]))
+            guarded = bool(tests) and not any(x in r_ for x in g2.nodes_containing(c))
+        rep.ob("R19.2", PROTO, f.qual, "the transport is not asked for zero bytes on an empty pkt-line", guarded,
+               "read(size - 4) is called with 0 for the empty pkt-line '0004': ReceivableProtocol.read asserts size > 0, so a valid "
+               "empty frame makes the decoder fail with AssertionError", c.lineno)
     f = prog.func(PROTO, "Protocol.read_pkt_line")
     src = norm(f.node, 100000)
     rep.ob("R19.2", PROTO, f.qual, "obtained payload length compared with the prefix", "len(pkt_contents) + 4 != size" in src
            or "len(pkt_contents) != size - 4" in src, "", f.node.lineno)
     f = prog.func(PROTO, "PktLineParser.parse")
-    src = norm(f.node, 100000)
-    rep.ob("R19.2", PROTO, f.qual, "frame delivered only when fully buffered", "size <= len(buf)" in src or "len(buf) >= size" in src,
-           "", f.node.lineno)
+    # completeness: the test guarding the delivery compares the frame size with the bytes that are still unconsumed.
+    # idiom A (re-slicing): buf[4:size] guarded by size <= len(buf); idiom B (offset P): buf[P+4:P+size] guarded by a test
+    # that mentions P (size <= end - P, P + size <= end).
+    deliver = [c for c in ast.walk(f.node) if isinstance(c, ast.Call) and callee_name(c) == "handle_pkt" and c.args
+               and isinstance(c.args[0], ast.Subscript) and isinstance(c.args[0].slice, ast.Slice) and "size" in norm(c.args[0].slice)]
+    if len(deliver) != 1:
+        raise AnalysisError("PktLineParser.parse: delivery of a frame not found")
+    sl = deliver[0].args[0].slice
+    offs = {x.id for x in ast.walk(sl.lower) if isinstance(x, ast.Name)} if sl.lower is not None else set()
+    guard = None
+    cur = deliver[0]
+    while cur in f.module.parents:
+        cur = f.module.parents[cur]
+        if isinstance(cur, ast.If) and "size" in norm(cur.test) and any(isinstance(o, (ast.LtE, ast.GtE, ast.Lt, ast.Gt)) for cmp_ in ast.walk(cur.test) if isinstance(cmp_, ast.Compare) for o in cmp_.ops):
+            guard = cur.test
+            break
+    if guard is None:
+        raise AnalysisError("PktLineParser.parse: completeness test guarding the delivery not found")
+    gnames = {x.id for x in ast.walk(guard) if isinstance(x, ast.Name)}
+    if offs:
+        ok = bool(offs & gnames)
+        why = f"frames are cut at offset `{sorted(offs)[0]}` but the completeness test `{norm(guard)}` ignores it: an incomplete frame " \
+              f"that follows complete ones in the same chunk is delivered truncated"
+    else:
+        ok = "len(buf)" in norm(guard)
+        why = f"completeness test `{norm(guard)}` does not compare with the buffered length"
+    rep.ob("R19.2", PROTO, f.qual, "frame delivered only when fully buffered (size compared with the unconsumed bytes)", ok, why, deliver[0].lineno)
     # ---- R19.3 strict parser
     pl = prog.func(PROTO, "_parse_pkt_line_length")
     g = cfg_of(prog, pl)
